@@ -154,7 +154,7 @@ func main() {
 	e := &Engine{prog: prog, pkgs: map[string]*ssa.Package{}, inc: NewInc(), maxPaths: 20000,
 		loopHdr: map[*ssa.Function]map[*ssa.BasicBlock]int{}, loopBody: map[*ssa.BasicBlock]map[*ssa.BasicBlock]bool{},
 		bounded: *bound, trace: *trace, warnings: map[string]bool{}, havoc: map[string]bool{},
-		recFns: map[*ssa.Function]bool{}, recApps: map[string]recApp{}, memo: map[string][]Val{},
+		recFns: map[*ssa.Function]bool{}, recApps: map[string]recApp{}, recAxioms: map[string][]*Term{}, memo: map[string][]Val{},
 		opaque: map[string]bool{}, depCache: map[*ssa.Function]map[string]bool{}, leafCache: map[*ssa.Function][]heapLeaf{},
 		variant: *suffix}
 	for _, o := range strings.Split(*opq, ",") {
